@@ -54,6 +54,10 @@ impl ZXAyChip {
 
     pub fn set_regs(&mut self, regs: &[u8]) {
         self.regs.copy_from_slice(&regs[..16]);
+        // Sound generator should produce what registers define, not only read them back
+        for (reg, value) in self.regs.iter().copied().enumerate() {
+            self.ay.write_register(reg as u8, value);
+        }
     }
 }
 
